@@ -12,8 +12,9 @@ from .c05 import render_pil
 from .results_common import render_group
 
 
-def run_rescue(pil, cut):
-    """old = subset grouping of the full list; rescue with the peptides below [cut]."""
+def run_rescue(pil, cut, old_partition=None):
+    """old = subset grouping of the full list (or a given partition, as the MaxQuant-native grouping supplies one in which the
+    first protein need not carry the peptides of its group mates); rescue with the peptides below [cut]."""
     from picked_group_fdr import graphs
     from picked_group_fdr.grouping import RescuedSubsetGrouping, SubsetGrouping
     calls = []
@@ -34,7 +35,11 @@ def run_rescue(pil, cut):
     pil_f = {e: v for e, v in full.items() if v[0] < c}
     graphs.ConnectedProteinGraphs._split_single_connected_component = wrapped
     try:
-        old = SubsetGrouping().group_proteins(full, None)
+        if old_partition is not None:
+            from picked_group_fdr.protein_groups import ProteinGroups
+            old = ProteinGroups.init_from_list([list(g) for g in old_partition])
+        else:
+            old = SubsetGrouping().group_proteins(full, None)
         oldgroups = [list(g) for g in old.protein_groups]
         g = RescuedSubsetGrouping()
         try:
@@ -273,10 +278,22 @@ class RescueSuite(Suite):
                     for cut in ("1/100", "1/1"):
                         yield {"pil": pil, "cut": gens.norm(cut)}
         for _ in range(core.tier_n(tier, 1200, 20000)):
-            yield gen_pil(rng, big=rng.random() < 0.2)
+            c = gen_pil(rng, big=rng.random() < 0.2)
+            if rng.random() < 0.25:
+                # first-pass groups as an arbitrary partition of the observed proteins (MaxQuant-native grouping): the leader of
+                # a group need not carry its mates' peptides
+                prots = sorted({p for _, _, ps in c["pil"] for p in ps})
+                rng.shuffle(prots)
+                part, k = [], 0
+                while k < len(prots):
+                    sz = rng.choice([1, 1, 2, 3])
+                    part.append(prots[k:k + sz])
+                    k += sz
+                c["old_partition"] = part
+            yield c
 
     def impl(self, case):
-        return run_rescue(case["pil"], case["cut"])
+        return run_rescue(case["pil"], case["cut"], case.get("old_partition"))
 
     def _render_in(self, case, out):
         tab = clist(cpair(cpair(render_group(c["graph"][0]), render_group(c["graph"][1])),
